@@ -524,7 +524,7 @@ class Channel:
     def _decode_read(self, r, sub=None):
         cc = self.cc
         blocks, dsegs, fsegs, bad = [], [], [], 0
-        for k, arr in r.items():
+        for k, arr in sorted(r.items(), key=lambda kv: int(kv[0])):   # (the order of the mapping is not part of any property)
             k = int(k)
             n = len(arr)
             blocks.append([k - cc.B, k - cc.B + n - 1])
@@ -554,11 +554,11 @@ class Channel:
             r = rd.read(a + cc.B, b + cc.B, "ch")
             ev["blocks"], ev["data"], ev["fill"], ev["bad"] = self._decode_read(r)
             cb = rd.get_continuous_blocks(a + cc.B, b + cc.B, "ch")
-            ev["lens"] = [[int(k) - cc.B, int(k) - cc.B + int(n) - 1] for k, n in cb.items()]
+            ev["lens"] = sorted([int(k) - cc.B, int(k) - cc.B + int(n) - 1] for k, n in cb.items())
             if not light:
                 sub = rng.randrange(cc.nsub)
                 rs = rd.read(a + cc.B, b + cc.B, "ch", sub)
-                ok = list(rs.keys()) == list(r.keys())
+                ok = sorted(int(k) for k in rs.keys()) == sorted(int(k) for k in r.keys())
                 if ok:
                     for k in r:
                         full = r[k]
@@ -572,14 +572,14 @@ class Channel:
                     r2 = rd.read(m + 1 + cc.B, b + cc.B, "ch")
                     merged = {}
                     lastk = None
-                    for k, arr in list(r1.items()) + list(r2.items()):
+                    for k, arr in sorted(list(r1.items()) + list(r2.items()), key=lambda kv: int(kv[0])):
                         k = int(k)
                         if lastk is not None and lastk + len(merged[lastk]) == k:
                             merged[lastk] = np.concatenate((merged[lastk], arr))
                         else:
                             merged[k] = arr
                             lastk = k
-                    ok = [int(k) for k in r.keys()] == list(merged.keys())
+                    ok = sorted(int(k) for k in r.keys()) == sorted(merged.keys())
                     if ok:
                         for k in r:
                             if not np.array_equal(cc.vals.to_bits(r[k]), cc.vals.to_bits(merged[int(k)])):
